@@ -45,7 +45,10 @@ def _build_glyph(container, g):
     for comp in g.get("components", []):
         pen.addComponent(comp["base"], tuple(comp["t"]))
     for a in g.get("anchors", []):
-        glyph.appendAnchor({"name": a["name"], "x": a["x"], "y": a["y"]})
+        d = {"name": a["name"], "x": a["x"], "y": a["y"]}
+        if a.get("identifier"):
+            d["identifier"] = a["identifier"]
+        glyph.appendAnchor(d)
     for k, v in g.get("lib", {}).items():
         glyph.lib[k] = copy.deepcopy(v)
     return glyph
